@@ -9,7 +9,7 @@ the minimal parentheses of the C grammar, Parse = that grammar).
     small operands, algebraic identities at the carry boundaries),
     Check_Arith (worked examples of the manual / POSIX test-suite / C).
  1  spec -> impl: TLC enumerates expression trees over boundary operands
-    (Gen_Arith, nine families) and prints {text, env, allowed outcomes}; the
+    (Gen_Arith, ten families) and prints {text, env, allowed outcomes}; the
     harness evaluates each text with the real yash_arith::eval and, for a
     sample, through the whole shell (`$(( ))` on the simulated OS, including
     `$((x))` vs `$(($x))`); the observed outcome must be an allowed one.
@@ -35,7 +35,7 @@ TIERS = {
     "quick": dict(gen_cfg="Gen_Arith_quick.cfg", int_cfg="Check_Int64.cfg", workers=8,
                   random_n=16000, random_depth=4, soup_n=6000, shell_every=12, shellsoup_n=1500, shards=8),
     "thorough": dict(gen_cfg="Gen_Arith_thorough.cfg", int_cfg="Check_Int64_big.cfg", workers=8,
-                     random_n=240000, random_depth=6, soup_n=120000, shell_every=1, shellsoup_n=20000, shards=8),
+                     random_n=120000, random_depth=6, soup_n=60000, shell_every=2, shellsoup_n=8000, shards=8),
 }
 
 
@@ -159,6 +159,12 @@ def validate(trace_path, shards, timeout=1500):
     return rejects, sum(s for _, s in results), time.time() - t0, lines
 
 
+def num_of(v):
+    """Int64.tla number (sign + limbs in base 2^15) as a Python int."""
+    m = sum(d * 32768 ** i for i, d in enumerate(v["m"]))
+    return -m if v["n"] else m
+
+
 def chars(cell):
     return "".join(cell["s"]) if cell["set"] else None
 
@@ -243,7 +249,8 @@ def run(tier):
             if i in (5, 1234):
                 d = json.loads(line)
                 samples.append({"text": d["text"], "env": {k: chars(v) for k, v in d["env"].items()},
-                                "observed": d["out"]["t"] + ":" + d["out"]["c"]})
+                                "observed": d["out"]["t"] + ":" + (str(num_of(d["out"]["v"])) if d["out"]["t"] == "v"
+                                                                   else d["out"]["c"])})
     soup_classes = {}
     for d in vlib.read_ndjson(sp):
         k = d["out"]["t"] + ":" + d["out"]["c"]
